@@ -1,53 +1,110 @@
 import CollectionsC.Properties.C01Sized
-import CollectionsC.Proofs.ArraySized7
+import CollectionsC.Proofs.ArraySized8
 /-! # C15 (sized array part) — derived arrays are exact and independent
 
-Statements only.  `subarray`, `copy`, `filter` return a *new* array value; the source is an
-argument that the model functions do not return, so "building never modifies the source" and
-"independent afterwards" hold by construction in the value model — they are stated below all the
-same; the aliasing question (does the derived array share bytes with the source?) is answered by
-the harness, which mutates and destroys either one and re-observes the other. -/
+Statements only.  `subarray`, `copy`, `filter` return a *new* array value.  The clauses "building
+never modifies the source" and "independent afterwards" are true by the value semantics of the model
+(the source is an argument the functions do not return; two model values cannot share bytes): they are
+kept below under the label `_model` — the aliasing question is answered by the harness, which mutates
+and destroys either array and re-observes the other under ASan. -/
 namespace CC.Properties.C15Sized
 open CC CC.Gen CC.ArraySized
 
-/-- **exact content**: the selected records in source order; the result satisfies the invariant
-and carries the source's element size and growth rule; `copy`/`filter` also its capacity, `subarray`
-is exactly full; `filter`'s predicate sees the source's elements first to last -/
-theorem derived_content (a : ArraySized) (b e : Nat) (p : List Nat → Bool) (m : Mem) (h : a.Inv) :
-    (b ≤ e → e < a.size → ∀ s, (a.subarray b e m).2.1 = some s →
-      s.Inv ∧ s.abs = (a.abs.drop b).take (e - b + 1) ∧ s.dataLen = a.dataLen ∧ s.grow = a.grow) ∧
-    (∀ s, (a.copy m).2.1 = some s → s.Inv ∧ s.abs = a.abs ∧ s.dataLen = a.dataLen ∧ s.grow = a.grow ∧
-      s.capacity = a.capacity) ∧
-    (0 < a.size → ∀ s, (a.filter p m).2.2.1 = some s →
-      s.Inv ∧ s.abs = a.abs.filter p ∧ s.dataLen = a.dataLen ∧ s.grow = a.grow ∧ (a.filter p m).2.1 = a.abs) :=
-  C01Sized.C15_sized_derived a b e p m h
+/-- **subarray, every argument and every allocator answer** (both ends inclusive):
+* outside `b ≤ e < size`: `CC_ERR_INVALID_RANGE`, no object, nothing allocated;
+* inside, allocator grants: `CC_OK`, the result holds exactly `abs[b..e]`, is exactly full, satisfies
+  the invariant, carries the source's element size, growth rule and allocator triple;
+* inside, allocator refuses: `CC_ERR_ALLOC`, no object, ledger as before -/
+theorem subarray_exact (a : ArraySized) (b e : Nat) (m : Mem) (h : a.Inv) :
+    (¬ (b ≤ e ∧ e < a.size) ∧ a.subarray b e m = (.errInvalidRange, none, m)) ∨
+    (b ≤ e ∧ e < a.size ∧ alloc2ok m a.triple = true ∧ ∃ s, a.subarray b e m = (.ok, some s, (a.subarray b e m).2.2) ∧
+      s.Inv ∧ s.abs = (a.abs.drop b).take (e - b + 1) ∧ s.dataLen = a.dataLen ∧ s.cfg = a.cfg ∧
+      s.size = e - b + 1 ∧ s.capacity = e - b + 1) ∨
+    (b ≤ e ∧ e < a.size ∧ alloc2ok m a.triple = false ∧ (a.subarray b e m).1 = .errAlloc ∧
+      (a.subarray b e m).2.1 = none ∧ MemSame a.triple m (a.subarray b e m).2.2) := by
+  by_cases hr : b ≤ e ∧ e < a.size
+  · right
+    rcases subarray_spec a b e m h hr.1 hr.2 with ⟨s, h1, h2, h3, h4, h5, h6, h7, _⟩ | ⟨h1, h2, h3⟩
+    · left
+      refine ⟨hr.1, hr.2, ?_, s, h1, h2, h3, h4, h5, h7, h6⟩
+      cases hq : alloc2ok m a.triple
+      · have := (subarray_refused_iff a b e m).2 ⟨hr.1, hr.2, hq⟩
+        rw [h1] at this; cases this
+      · rfl
+    · right
+      exact ⟨hr.1, hr.2, ((subarray_refused_iff a b e m).1 h1).2.2, h1, h2, h3⟩
+  · left; exact ⟨hr, subarray_inert a b e m (by omega)⟩
+
+/-- **copy, every allocator answer**: granted → exact content, same capacity/element size/growth
+rule/triple; refused → `CC_ERR_ALLOC`, no object, ledger as before -/
+theorem copy_exact (a : ArraySized) (m : Mem) (h : a.Inv) :
+    (alloc2ok m a.triple = true ∧ ∃ s, a.copy m = (.ok, some s, (a.copy m).2.2) ∧ s.Inv ∧ s.abs = a.abs ∧
+      s.dataLen = a.dataLen ∧ s.cfg = a.cfg ∧ s.capacity = a.capacity) ∨
+    (alloc2ok m a.triple = false ∧ (a.copy m).1 = .errAlloc ∧ (a.copy m).2.1 = none ∧
+      MemSame a.triple m (a.copy m).2.2) := by
+  rcases copy_spec a m h with ⟨s, h1, h2, h3, h4, h5, h6, _⟩ | ⟨h1, h2, h3⟩
+  · left
+    refine ⟨?_, s, h1, h2, h3, h4, h5, h6⟩
+    cases hq : alloc2ok m a.triple
+    · have := (copy_refused_iff a m).2 hq
+      rw [h1] at this; cases this
+    · rfl
+  · right; exact ⟨(copy_refused_iff a m).1 h1, h1, h2, h3⟩
+
+/-- **filter, every source and every allocator answer**: empty source → `CC_ERR_OUT_OF_RANGE`, no
+object; granted → the records satisfying the predicate in source order (the predicate sees every
+record once, first to last); refused → `CC_ERR_ALLOC`, no object -/
+theorem filter_exact (a : ArraySized) (p : List Nat → Bool) (m : Mem) (h : a.Inv) :
+    (a.size = 0 ∧ a.filter p m = (.errOutOfRange, [], none, m)) ∨
+    (0 < a.size ∧ alloc2ok m a.triple = true ∧ ∃ s, a.filter p m = (.ok, a.abs, some s, (a.filter p m).2.2.2) ∧
+      s.Inv ∧ s.abs = a.abs.filter p ∧ s.dataLen = a.dataLen ∧ s.cfg = a.cfg ∧ s.capacity = a.capacity) ∨
+    (0 < a.size ∧ alloc2ok m a.triple = false ∧ (a.filter p m).1 = .errAlloc ∧ (a.filter p m).2.2.1 = none ∧
+      MemSame a.triple m (a.filter p m).2.2.2) := by
+  by_cases h0 : 0 < a.size
+  · right
+    rcases filter_spec a p m h h0 with ⟨s, h1, h2, h3, h4, h5, h6, _⟩ | ⟨h1, h2, h3⟩
+    · left
+      refine ⟨h0, ?_, s, h1, h2, h3, h4, h5, h6⟩
+      cases hq : alloc2ok m a.triple
+      · have := (filter_refused_iff a p m).2 ⟨h0, hq⟩
+        rw [h1] at this; cases this
+      · rfl
+    · right; exact ⟨h0, ((filter_refused_iff a p m).1 h1).2, h1, h2, h3⟩
+  · left; exact ⟨by omega, filter_inert a p m (by omega)⟩
 
 /-- **derived_can_grow**: every derived array is a fully usable array of its own — appending to it
-succeeds whenever the allocator grants the request and the size limit is not reached (A3: a full
+succeeds whenever its allocator grants the request and the size limit is not reached (A3: a full
 sub-array used to be unable to grow), and then refines the ideal append -/
-theorem derived_can_grow (s : ArraySized) (x : Buf Nat) (m : Mem) (hs : s.Inv) (hx : x.length = s.dataLen)
-    (hal : m.alloc.1 = true) (hc : ¬ s.AtLimit) :
-    (s.add x m).1 = .ok ∧ (s.add x m).2.1.abs = s.abs ++ [x] := add_ok_of_alloc s x m hs hx hal hc
+theorem derived_can_grow (a : ArraySized) (x : Buf Nat) (m : Mem) (h : a.Inv) (hx : x.length = a.dataLen)
+    (hal : (m.allocT a.triple).1 = true) (hc : ¬ a.AtLimit) :
+    (a.add x m).1 = .ok ∧ (a.add x m).2.1.abs = a.abs ++ [x] := add_ok_of_alloc a x m h hx hal hc
 
 theorem subarray_can_grow (a s : ArraySized) (b e : Nat) (x : Buf Nat) (m m' : Mem) (h : a.Inv)
     (hb : b ≤ e) (he : e < a.size) (hs : (a.subarray b e m).2.1 = some s)
-    (hx : x.length = a.dataLen) (hal : m'.alloc.1 = true) (hc : ¬ s.AtLimit) :
+    (hx : x.length = a.dataLen) (hal : (m'.allocT s.triple).1 = true) (hc : ¬ s.AtLimit) :
     (s.add x m').1 = .ok ∧ (s.add x m').2.1.abs = (a.abs.drop b).take (e - b + 1) ++ [x] :=
   C01Sized.C15_sized_subarray_grows a s b e x m m' h hb he hs hx hal hc
 
-/-- any history on a derived array refines the ideal sequence started from the selected records -/
+/-- any history on a copy refines the ideal sequence started from the source's content -/
 theorem derived_history (a s : ArraySized) (m m' : Mem) (h : a.Inv) (hs : (a.copy m).2.1 = some s)
     (ops : List (Spec.SSeq.Op Elem)) (hw : ∀ op ∈ ops, OpWF a.dataLen op) :
     (s.run ops m').1 = (Spec.SSeq.run a.abs ops (s.refusals ops m')).1 ∧
     (s.run ops m').2.1.abs = (Spec.SSeq.run a.abs ops (s.refusals ops m')).2 := by
-  obtain ⟨i1, i2, i3, _⟩ := (derived_content a 0 0 (fun _ => true) m h).2.1 s hs
+  obtain ⟨i1, i2, i3, _⟩ := (C01Sized.C15_sized_derived a 0 0 (fun _ => true) m h).2.1 s hs
   have := C01Sized.C01_sized s ops m' i1 (by rw [i3]; exact hw)
   rw [i2] at this
   exact ⟨this.1, this.2.1⟩
 
-/-- **source unchanged / independent**: the pair (source, result) after a builder has the source as
-its first component, and a history on either component leaves the other component as it is -/
-theorem independent (a s : ArraySized) (ops : List (Spec.SSeq.Op Elem)) (m : Mem) :
+/-- **source unchanged / independent** (`_model`): true by construction in a value model, see the
+file header; the harness carries the aliasing part -/
+theorem independent_model (a s : ArraySized) (ops : List (Spec.SSeq.Op Elem)) (m : Mem) :
     ((a, (s.run ops m).2.1).1 = a) ∧ (((a.run ops m).2.1, s).2 = s) := ⟨rfl, rfl⟩
+
+/-! Non-vacuity: a 2-record array, `subarray 1 1`, then an append to the (exactly full) result. -/
+example :
+    let a : ArraySized := { dataLen := 1, size := 2, capacity := 2, grow := fun c => 2 * c, buf := [7, 8] }
+    let m : Mem := { live := 2 }
+    a.Inv ∧ ((a.subarray 1 1 m).2.1.map (·.abs)) = some [[8]] ∧
+    ((a.subarray 1 1 m).2.1.map fun s => (s.add [9] (a.subarray 1 1 m).2.2).2.1.abs) = some [[8], [9]] := by decide
 
 end CC.Properties.C15Sized
